@@ -8,6 +8,7 @@ import (
 	"strconv"
 	"strings"
 	"sync"
+	"sync/atomic"
 
 	"github.com/bufbuild/protocompile/internal/verifhook"
 )
@@ -114,6 +115,10 @@ func normalise(p int, ev string, kv []any) (event, bool) {
 	}
 	return e, true
 }
+
+// hooksOff: set by the controller while it alone is running (projection of the table), so that its own
+// Lookup calls do not pay for goroutine identification
+var hooksOff atomic.Bool
 
 func installHooks(gate func(name string, kv ...any), trace func(ev string, kv ...any)) {
 	verifhook.Gate = gate
